@@ -357,10 +357,10 @@ func runC19(t *testing.T, test, level string, nScenarios int) {
 
 func TestC19_Main(t *testing.T) {
 	haveBins(t, "stgutg_verif")
-	runC19(t, "TestC19_Main", "main", ev.N(3, 120))
+	runC19(t, "TestC19_Main", "main", ev.N(3, 360))
 }
 
 func TestC19_Proc(t *testing.T) {
 	haveBins(t, "procdriver")
-	runC19(t, "TestC19_Proc", "proc", ev.N(2, 48))
+	runC19(t, "TestC19_Proc", "proc", ev.N(2, 160))
 }
